@@ -56,6 +56,9 @@ type recvUpload struct {
 	Init  bool         `json:"init"`
 	Seq   int          `json:"seq"`
 	Del   recvDelivery `json:"delivery"`
+	// BigMiB > 0: a segment of that size built here, as Frags moof/mdat pairs (0 = one)
+	BigMiB int `json:"big_mib,omitempty"`
+	Frags  int `json:"frags,omitempty"`
 }
 
 type recvInput struct {
@@ -119,6 +122,38 @@ func (t *recvTrack) segment(seq int) []byte {
 	return buf.Bytes()
 }
 
+// a large segment: frags fragments with one sample each, mib MiB of pseudo-random payload in total
+func (t *recvTrack) bigSegment(seq, mib, frags int) []byte {
+	fi, err := mp4.DecodeFile(bytes.NewReader(t.init))
+	if err != nil {
+		panic(err)
+	}
+	if frags < 1 {
+		frags = 1
+	}
+	seg := mp4.NewMediaSegment()
+	rng := rand.New(rand.NewSource(int64(seq)*7919 + int64(mib)))
+	per := mib << 20 / frags
+	tm := uint64(seq) * t.dur
+	for k := 0; k < frags; k++ {
+		frag, err := mp4.CreateFragment(uint32(seq), fi.Init.Moov.Trak.Tkhd.TrackID)
+		if err != nil {
+			panic(err)
+		}
+		data := make([]byte, per+k)
+		rng.Read(data)
+		d := uint32(t.dur / uint64(frags))
+		frag.AddFullSample(mp4.FullSample{Sample: mp4.Sample{Flags: mp4.SyncSampleFlags, Dur: d, Size: uint32(len(data))}, DecodeTime: tm, Data: data})
+		tm += uint64(d)
+		seg.AddFragment(frag)
+	}
+	var buf bytes.Buffer
+	if err := seg.Encode(&buf); err != nil {
+		panic(err)
+	}
+	return buf.Bytes()
+}
+
 // one upload over its own TCP connection; release (may be nil) is waited for at Del.HoldAt, reached (may
 // be nil) is closed when the hold point is reached
 func recvPut(addr, path string, body []byte, d recvDelivery, reached chan<- struct{}, release <-chan struct{}) recvResult {
@@ -127,7 +162,7 @@ func recvPut(addr, path string, body []byte, d recvDelivery, reached chan<- stru
 		return recvResult{err: err.Error()}
 	}
 	defer conn.Close()
-	_ = conn.SetDeadline(time.Now().Add(8 * time.Second))
+	_ = conn.SetDeadline(time.Now().Add(8*time.Second + time.Duration(len(body)>>20)*time.Second))
 	hdr := fmt.Sprintf("PUT %s HTTP/1.1\r\nHost: %s\r\nConnection: close\r\n", path, addr)
 	if d.Chunked {
 		hdr += "Transfer-Encoding: chunked\r\n\r\n"
@@ -253,9 +288,19 @@ func runRecv(c *lib.Ctx) error {
 		}
 		tracks = append(tracks, tr)
 	}
+	bigCache := map[[2]int][]byte{}
 	body := func(u recvUpload) []byte {
 		if u.Init {
 			return tracks[u.Track].init
+		}
+		if u.BigMiB > 0 {
+			k := [2]int{u.Track, u.Seq}
+			if b, ok := bigCache[k]; ok {
+				return b
+			}
+			b := tracks[u.Track].bigSegment(u.Seq, u.BigMiB, u.Frags)
+			bigCache[k] = b
+			return b
 		}
 		return tracks[u.Track].segment(u.Seq)
 	}
@@ -432,6 +477,25 @@ func runRecv(c *lib.Ctx) error {
 			}
 			// a complete upload after the cut ones must still work
 			single("media-after-cut", recvUpload{Track: t, Seq: next(t), Del: none})
+		}
+	}
+	// uploads larger than the receiver's initial parse buffer (16 MiB): with Content-Length as one mdat and as several
+	// chunks, chunked transfer as control
+	{
+		big := []recvUpload{{Track: 0, Seq: next(0), Del: none, BigMiB: 17}}
+		if c.Thorough() {
+			ch1 := none
+			ch1.Chunked = true
+			ch1.Splits = []int{1 << 20, 5 << 20, 3 << 20}
+			big = append(big,
+				recvUpload{Track: 1, Seq: next(1), Del: none, BigMiB: 20, Frags: 3},
+				recvUpload{Track: 0, Seq: next(0), Del: none, BigMiB: 18, Frags: 5},
+				recvUpload{Track: 1, Seq: next(1), Del: ch1, BigMiB: 17},
+				recvUpload{Track: 0, Seq: next(0), Del: ch1, BigMiB: 19, Frags: 2})
+		}
+		for _, u := range big {
+			single("large-upload", u)
+			delete(bigCache, [2]int{u.Track, u.Seq})
 		}
 	}
 	c.Res.Notes = append(c.Res.Notes, fmt.Sprintf("receiver level: %d uploads over real HTTP connections to one in-process receiver (deliveries, overlapping uploads of one track and of different tracks, cut bodies) checked against the stored files", evals))
